@@ -41,21 +41,70 @@ def lower(s):
 
 
 def _lookup(keys, key):
-    n = len(key) if not isinstance(key, SSeq) else len(key.el)
-    for k in keys:
-        if len(k) != n:
-            continue
-        eq = (key == k)
-        if eq is False:
-            continue
-        if eq is True or bool(eq):
-            return k
+    """first table key equal to the (symbolic) key, solver-decided; one query
+    decides "none matches", then one fork per feasible key"""
+    if not isinstance(key, SSeq):
+        return key if key in keys else None
+    n = len(key.el)
+    cands = [k for k in keys if len(k) == n]
+    ctx = Ctx.cur
+    while cands:
+        conds = [(k, key.eq_cond(k)) for k in cands]
+        conds = [(k, c) for k, c in conds if c is not False]
+        if not conds:
+            return None
+        for k, c in conds:
+            if c is True:
+                return k
+        if not _br(z3.Or(*[c for _, c in conds])):
+            return None
+        # some key matches on this path: find one through the model, fork on it.  The chosen
+        # key is recorded in the decision (tag) so that re-execution of a prefix does not
+        # depend on which model the solver happens to return
+        hit = None
+        if ctx.pos < len(ctx.prefix) and ctx.prefix[ctx.pos][2] is not None:
+            tag = ctx.prefix[ctx.pos][2]
+            for k, c in conds:
+                if k == tag:
+                    hit = (k, c)
+        if hit is None:
+            m = ctx.model()
+            for k, c in conds:
+                if m is not None and z3.is_true(m.eval(c, True)):
+                    hit = (k, c)
+                    break
+        if hit is None:
+            hit = conds[0]
+        if _br(hit[1], hit[0]):
+            return hit[0]
+        cands = [k for k, _ in conds if k != hit[0]]
     return None
 
 
 def resolve_module(name):
-    """encodings module name for a (symbolic) codec name, or LookupError"""
+    """encodings module name for a (symbolic) codec name, or LookupError.  Memoised per path: once the
+    path condition has fixed what the name resolves to, later uses on the same path need no solver."""
     s = lift(name)
+    ctx = Ctx.cur
+    cache = getattr(ctx, 'codec_cache', None)
+    if cache is None:
+        cache = ctx.codec_cache = {}
+    key = tuple(e if isinstance(e, int) else ('z', e.get_id()) for e in s.el)
+    if key in cache:
+        r = cache[key]
+        if isinstance(r, Exception):
+            raise r
+        return r
+    try:
+        r = _resolve_module(s)
+    except (LookupError, ValueError) as e:
+        cache[key] = e
+        raise
+    cache[key] = r
+    return r
+
+
+def _resolve_module(s):
     for e in s.el:
         if not isinstance(e, int) and _br(z3.UGE(e, 128)):
             raise LookupError('unknown encoding (non-ASCII name)')
